@@ -21,6 +21,33 @@ D = {  # id: (property, breaks, needs, strengthened-note)
  "C22-2": ("C22", "Disconnected skips the recalculation while BinSize (all peers) stays saturated", "bin shallower than depth with exactly 4 reachable + >=1 unreachable peers, a reachable one disconnects", ""),
  "C23-1": ("C23", "ClosestPeer stops after the target's bin ignoring eligibility", "every peer of the target's bin skipped/unreachable, eligible peers deeper", ""),
  "C23-2": ("C23", "word-wise DistanceCmp compares only the first 8 bytes of 32-byte addresses", "candidates agreeing on their first 8 bytes", "C23 missed it at first (C20 caught it); C23 generator now adds long-common-prefix siblings"),
+ "C24-1": ("C24", "PSlice.Add single-address path checks presence under RLock, then appends under Lock without re-check", "two overlapping Adds of one overlay (simultaneous dial), then one Remove", "C24's sequential check misses it; C21's generated lock table (decide) breaks and reports it"),
+ "C24-2": ("C24", "binSaturated count jumps to the next bin at the first unreachable peer", "an unreachable peer stored first in an oversaturated bin", ""),
+ "C25-1": ("C25", "Add returns early (no timestamp refresh) when the stored block is at least as long", "re-add during or after a block", ""),
+ "C25-2": ("C25", "Add lost the `duration != 0` guard: a requested forever is replaced by the stored finite duration", "finite block, then Add(0)", ""),
+ "C26-1": ("C26", "Unflag disarms (blockAfter=0) instead of deleting; Flag never re-arms", "flag, unflag, flag again", ""),
+ "C26-2": ("C26", "sequencer catches up on wall time but not across a network outage", "outage longer than the flag timeout", ""),
+ "C27-1": ("C27", "SavePath persists the route list before truncating it to NeighborAlpha", "alpha+1 saves to one target, then reload", ""),
+ "C27-2": ("C27", "Gc bypasses Delete and leaves the expired path in the store", "Gc, then reload", ""),
+ "C29-1": ("C29", "skip list rebuilt between the connected and known passes drops the requester", "requester whose proximity to the target is among the requested orders and target != requester", ""),
+ "C29-2": ("C29", "limit clamp missed at one site: limitConn uses the unclamped request limit", "limit > 30 with >= 16 connected candidates", ""),
+ "C35-1": ("C35", "RefreshKey assigns the new expiry before testing the old one: expired tokens are revived", "refresh of an expired token", ""),
+ "C35-2": ("C35", "short-token guard moved from decoded bytes to the base64 string", "valid base64 of 12-16 chars decoding to < 12 bytes", ""),
+ "C40-1": ("C40", "pending subscriptions drained only after the key lookup in process", "select picks an unsubscription while a subscription is still queued", ""),
+ "C40-2": ("C40", "unsubscription edits the published subscriber slice in place", "Publish iterating the list while an unsubscription is processed", "MISSED — strengthening in progress (pubduring op)"),
+ "C40-3": ("C40", "j-- lost in the removal loop", "duplicate subscriptions and a single error value", ""),
+ "C02-1": ("C02", "feeder resets bufferIdx only after the flush loop: later chunks of one Write land behind a stale offset", "a Write that finds a non-empty buffer and completes >= 2 chunks", "C01's generator did not split writes that way (C02's does); see C01-1"),
+ "C02-2": ("C02", "hashtrie Sum carries a lone reference only if the next level is empty (else wraps it in a single-child chunk)", "8192k+1 chunks with real constants; small-branching instances", ""),
+ "C28-1": ("C28", "post-discovery getNextHopRandom call drops the skip list", "relay node without a usable route whose discovery learns a route through its predecessor", "MISSED — strengthening in progress"),
+ "C28-2": ("C28", "response filter counts hops instead of nodes (len-1 <= MaxTTL)", "one discovery reaching a node over two branches", ""),
+ "C30-1": ("C30", "cheque store takes its lock after the increasing check", "two overlapping deliveries for one issuer on the ChequeStore", "MISSED — strengthening in progress"),
+ "C30-2": ("C30", "recovered issuer cached by signature bytes only", "genuine cheque, then a forgery reusing exactly that signature", "MISSED — strengthening in progress"),
+ "C31-1": ("C31", "putSendCheque Sets the cheque total in place (aliases the cashed record after a refresh)", "peer settled at a refresh, then a delivered cheque", ""),
+ "C31-2": ("C31", "cash-out receipt handler swaps the arguments of trafficPeerChainUpdate", "received cheque, CashCheque, asynchronous receipt", ""),
+ "C32-1": ("C32", "getAccountingPeer drops the map lock during the settlement lookup and inserts without re-check", "two concurrent first-time operations on one peer", "MISSED — strengthening in progress"),
+ "C32-2": ("C32", "Debit no longer takes the per-peer lock", "concurrent Debits just below the tolerance", ""),
+ "C33-1": ("C33", "Put*Traffic accumulate in place (aliasing total and last-cheque amount after restore)", "settled peer, restart, update, restart", ""),
+ "C33-2": ("C33", "refresh reads the persisted totals before taking the peer lock", "traffic update overlapping the 24h refresh / Init", "MISSED — strengthening in progress"),
 }
 rows = []
 for d in sorted(glob.glob('/verif/seeded/*')):
